@@ -34,6 +34,7 @@ LV = "MstVerif/Model/Level.lean"
 SY = "MstVerif/Model/Sync.lean"
 SH = "MstVerif/Model/SipHash.lean"
 AP = "MstVerif/Model/Api.lean"
+SN = "MstVerif/Model/Snapshot.lean"
 
 # (name, file, old, new) - `old` must occur exactly once in the file
 MUTANTS = [
@@ -92,6 +93,8 @@ MUTANTS = [
     ("siphash-length-byte-missing", SH, "((bs.length.toUInt64 &&& 0xff) <<< 56) ||| leWord tail", "leWord tail"),
     ("builder-withHasher-resets-base", AP, "def TreeBuilder.withHasher (b : TreeBuilder) (h : HasherM) : TreeBuilder := { hasher := h, levelBase := b.levelBase }", "def TreeBuilder.withHasher (b : TreeBuilder) (h : HasherM) : TreeBuilder := { hasher := h, levelBase := defaultLevelBase }"),
     ("newWithHasher-default-base-8", AP, "def MST.newWithHasher (h : HasherM) : MST K D := { hasher := h, levelBase := defaultLevelBase, tree := Tree.empty }", "def MST.newWithHasher (h : HasherM) : MST K D := { hasher := h, levelBase := 8, tree := Tree.empty }"),
+    ("snapshot-iter-drops-last-range", SN, "  s.items.mapM fun v => PR.new v.start v.end_ v.hash", "  s.items.dropLast.mapM fun v => PR.new v.start v.end_ v.hash"),
+    ("snapshot-owned-end-is-start", SN, "def OwnedPR.ofPR (r : PR K D) : OwnedPR K D := { start := r.start, end_ := r.end_, hash := r.hash }", "def OwnedPR.ofPR (r : PR K D) : OwnedPR K D := { start := r.start, end_ := r.start, hash := r.hash }"),
     ("sipNew-swaps-key-words", AP, ".sip (Sip.leWord (seed.take 8)) (Sip.leWord ((seed.drop 8).take 8))", ".sip (Sip.leWord ((seed.drop 8).take 8)) (Sip.leWord (seed.take 8))"),
 ]
 
@@ -211,7 +214,13 @@ def main():
                 results.append({"mutant": name, "file": f, "status": "survived (equivalent)" if why else "SURVIVED the correspondence streams", "analysis": why or "NOT ANALYSED - a gap in the streams"})
                 print(f"{'==' if why else '!!'} {name}: survived{' (expected: equivalent)' if why else ' - UNEXPECTED'}")
         open(path, "w").write(src)
-    json.dump({"streams": STREAMS, "shards": SHARDS, "results": results}, open(os.path.join(ROOT, "tools/model_mutants.result.json"), "w"), indent=1)
+    out_path = os.path.join(ROOT, "tools/model_mutants.result.json")
+    if flt and os.path.exists(out_path):
+        # a filtered run updates its own entries only
+        prev = json.load(open(out_path)).get("results", [])
+        names = {r["mutant"] for r in results}
+        results = [r for r in prev if r["mutant"] not in names] + results
+    json.dump({"streams": STREAMS, "shards": SHARDS, "results": results}, open(out_path, "w"), indent=1)
     n_k = sum(1 for r in results if r["status"] == "killed")
     n_e = sum(1 for r in results if r["status"].startswith("survived"))
     print(f"{n_k} killed, {n_e} equivalent (analysed), {len(results) - n_k - n_e} other / {len(results)} mutants")
